@@ -1206,6 +1206,29 @@ def fam_deps_mock(rng):
     return out
 
 
+# after round 8: `async_trait` / `automock` on traits *without* an async method; parameter types that carry a `for<..>` binder of
+# their own (on sync and async functions)
+HRTB_PARAMS = ["f: impl for<'q> Fn(&'q str) -> &'q str + Send", "f: for<'q> fn(&'q str) -> &'q str", "f: &dyn for<'q> Fn(&'q str) -> usize",
+               "f: Box<dyn for<'q> FnMut(&'q mut Vec<u8>) + Send + Sync>", "f: &(dyn for<'q, 'r> Cmp<'q, 'r> + Sync)", "f: impl Fn(&str) -> &str + Send"]
+
+
+def fam_round8(rng):
+    out = []
+    for sa in SUB_ATTRS[:9]:
+        for attr in ("", "delegate_by = ref", "delegate_by = Borrow", "FooImpl, delegate_by = Deleg", "FooImpl, delegate_by = ref", "?Send"):
+            out.append(Case("round8", attr, "%s\ntrait T { fn g(&self) -> i32; fn h(&self, a: i32); }" % sa))
+            out.append(Case("round8", attr, "%s\npub trait T {}" % sa))
+    for pt in HRTB_PARAMS:
+        for asy in ("", "async "):
+            for attr in ("Foo", "Foo, ?Send", "Foo, no_deps"):
+                dep = "" if "no_deps" in attr else "deps: &impl A, "
+                out.append(Case("round8", attr, "%sfn foo(%s%s, x: u8) -> u8 { x }" % (asy, dep, pt)))
+            out.append(Case("round8", "Foo", "mod m { pub %sfn foo(deps: &impl A, %s) {} pub fn bar(deps: &impl A) {} }" % (asy, pt)))
+            out.append(Case("round8", rng.choice(["", "ref"]), "impl FooImpl for MyType { %sfn foo<D>(deps: &D, %s) {} }" % (asy, pt)))
+        out.append(Case("round8", "delegate_by = ref", "trait T { fn m(&self, %s); async fn n(&self, %s); }" % (pt, pt)))
+    return out
+
+
 def build_corpus(seed, tier):
     rng = random.Random(seed)
     thorough = tier == "thorough"
@@ -1238,6 +1261,7 @@ def build_corpus(seed, tier):
     cases += fam_vis_exhaustive(rng)
     cases += fam_coverage_gaps(rng)
     cases += fam_deps_mock(rng)
+    cases += fam_round8(rng)
     for i, c in enumerate(cases):
         c.cid = i
     return cases
